@@ -23,10 +23,11 @@ const opFreeze = "freeze" // clone Slot and keep the clone untouched as a captur
 
 func genC02(t *rapid.T, tier string) C02Case {
 	c := C02Case{Cfg: core.GenConfig(t, tier, core.GenOpts{
-		Caches: []string{"none", "big", "big", "tiny1", "tiny2", "tiny3", "arc", "arc4"},
-		Vals:   []string{core.VInt, core.VInt, core.VBytes, core.VStruct, core.VString, core.VLong},
+		Caches:   []string{"none", "big", "big", "tiny1", "tiny2", "tiny3", "arc", "arc4"},
+		Vals:     []string{core.VInt, core.VInt, core.VBytes, core.VStruct, core.VString, core.VLong},
+		BigOneIn: 20,
 	})}
-	c.Fill = core.GenFill(t, len(c.Cfg.Pool()), 30)
+	c.Fill = core.GenFillCfg(t, c.Cfg, 30)
 	maxOps := 50
 	if tier == "thorough" {
 		maxOps = 90
@@ -35,7 +36,7 @@ func genC02(t *rapid.T, tier string) C02Case {
 		core.OpInsert: 20, core.OpInsertNew: 25, core.OpUpdate: 8, core.OpInsertSame: 2, core.OpDelete: 25, core.OpDeleteTop: 6,
 		core.OpClone: 8, core.OpPersistFail: 2, core.OpPersist: 10, core.OpReload: 8, core.OpReloadJSON: 2, core.OpDrain: 1, core.OpGet: 2,
 	}
-	prog := core.GenProgram(t, w, maxOps, 4)
+	prog := core.GenProgram(t, core.WithBulk(w, c.Cfg), maxOps, 4)
 	// sprinkle cursor/freeze captures
 	n := rapid.IntRange(0, 4).Draw(t, "ncaptures")
 	for i := 0; i < n; i++ {
